@@ -67,6 +67,7 @@ type lfEv struct {
 	gid   uint64
 	msg   string
 	op    int
+	path  string // post+ only: stop path, derived from the call stack of the goroutine running PostStop
 }
 
 func (e lfEv) String() string {
@@ -132,6 +133,29 @@ type lfWorld struct {
 	afterStep func()
 	// pids of interest (actors whose stop lock matters), maintained by the scenario.
 	track map[string]*PID
+	// riskyPending: per actor name, accepted messages with a lock-taking action whose handler has
+	// not started yet.
+	riskyPending map[string]int
+}
+
+func (w *lfWorld) riskyAdd(name string, d int) {
+	w.mu.Lock()
+	if w.riskyPending == nil {
+		w.riskyPending = map[string]int{}
+	}
+	w.riskyPending[name] += d
+	w.mu.Unlock()
+}
+
+func (w *lfWorld) riskyQueued() bool {
+	w.mu.Lock()
+	defer w.mu.Unlock()
+	for _, n := range w.riskyPending {
+		if n > 0 {
+			return true
+		}
+	}
+	return false
 }
 
 type lfActor struct {
@@ -152,6 +176,41 @@ func lfGoid() uint64 {
 	}
 	id, _ := strconv.ParseUint(s, 10, 64)
 	return id
+}
+
+// lfStopPath classifies the stop path that is running PostStop on the current goroutine from the
+// function names on its call stack.
+func lfStopPath(sys *actorSystem) string {
+	buf := make([]byte, 32<<10)
+	n := runtime.Stack(buf, false)
+	st := string(buf[:n])
+	has := func(s string) bool { return strings.Contains(st, s) }
+	switch {
+	case has(".tryPassivation"):
+		return "passivation"
+	case has(".restartSubtree"):
+		return "restart"
+	case has(".handleStopDirective"):
+		return "supervisor-stop"
+	case has(".freeChildren"):
+		if sys != nil && sys.isStopping() {
+			return "system-stop"
+		}
+		return "parent-stop"
+	case has("(*ReceiveContext).Stop"):
+		return "stop-child-inturn"
+	case has("(*PID).Stop("):
+		return "stop-child"
+	case has("(*ReceiveContext).Shutdown"):
+		return "self-shutdown"
+	case has("(*actorSystem).Kill"):
+		return "kill"
+	case has(".dispatchOne"):
+		return "poisonpill"
+	case has("(*actorSystem).shutdown"):
+		return "system-stop"
+	}
+	return "other"
 }
 
 func (w *lfWorld) newActor(name string) *lfActor {
@@ -274,6 +333,9 @@ func (a *lfActor) Receive(ctx *ReceiveContext) {
 		label = fmt.Sprintf("%T", x)
 	}
 	inc := a.curInc()
+	if m != nil && m.act != nil {
+		w.riskyAdd(a.name, -1)
+	}
 	w.logEv(lfEv{kind: lfRecvEnter, actor: a.name, inst: a.inst, inc: inc, msg: label})
 	w.wait(a, "recv", label, m != nil && m.act != nil)
 	if m != nil && m.act != nil {
@@ -285,7 +347,7 @@ func (a *lfActor) Receive(ctx *ReceiveContext) {
 func (a *lfActor) PostStop(*Context) error {
 	w := a.w
 	inc := a.curInc()
-	w.logEv(lfEv{kind: lfPostEnter, actor: a.name, inst: a.inst, inc: inc})
+	w.logEv(lfEv{kind: lfPostEnter, actor: a.name, inst: a.inst, inc: inc, path: lfStopPath(w.sys)})
 	w.wait(a, "post", "", false)
 	if w.postExitHook != nil {
 		w.postExitHook(a)
@@ -440,7 +502,7 @@ func (w *lfWorld) gateSafe(g *lfGate) bool {
 	}
 	// some stop lock is held: only allow when the handler has no lock-taking action and no control
 	// message is pending anywhere among the tracked actors (conservative).
-	if g.risky {
+	if g.risky || w.riskyQueued() {
 		return false
 	}
 	for _, p := range w.trackedPIDs() {
